@@ -524,6 +524,264 @@ theorem skipCount_asUninit (ms : List Buf) :
         simp only [List.getElem?_cons_succ] at hm'
         exact h4 m' hm'
 
+/-! ### the fill law through `VectoredSlice` (`slice_mut(begin)` of a packed buffer) -/
+
+def AllFull : List Buf → Prop
+  | [] => True
+  | m :: rest => (∃ o c, GoodM m o c c) ∧ AllFull rest
+
+theorem AllFull.good {ms : List Buf} (h : AllFull ms) : GoodAll ms := by
+  induction ms with
+  | nil => trivial
+  | cons m rest ih =>
+    obtain ⟨⟨o, c, hg⟩, hr⟩ := h
+    exact ⟨⟨o, c, c, hg⟩, ih hr⟩
+
+theorem AllFull.lenSum {ms : List Buf} (h : AllFull ms) : lenSum ms = capSum ms := by
+  induction ms with
+  | nil => rfl
+  | cons m rest ih =>
+    obtain ⟨⟨o, c, hg⟩, hr⟩ := h
+    simp only [View.lenSum, View.capSum, memberLen, memberCap, hg.2.2.1, hg.2.2.2.1, ih hr]
+
+/-- the single-buffer effect of the chunk `d.take (c - off)` stored `off` bytes into member `m`'s writable region -/
+def fillMemberAt (m : Buf) (off : Nat) (d : Bytes) : Buf :=
+  match m.asUninit with
+  | .ok (o, c) => m.setRoot (fillRoot (o + off) m.getRoot (d.take (c - off)))
+  | .error _ => m
+
+theorem setLen_full {m : Buf} {o c : Nat} (h : GoodM m o c c) : m.setLen c = .ok m := by
+  have hoff := h.off
+  have hfit := h.fits
+  obtain ⟨hw, hf, hi, hu, ht⟩ := h
+  rw [Buf.setLen_eq, ← hoff]
+  rw [Root.setLen_of_ge _ _ hw (by omega) (by omega)]
+  simp only
+  have e : ({ m.getRoot with len := o + c } : Root) = m.getRoot := by
+    rw [ht]
+    generalize m.getRoot = r
+    cases r
+    rfl
+  rw [e, Buf.setRoot_getRoot]
+
+/-- `default_set_len` walks over full members without changing them -/
+theorem defaultSetLen_full_prefix (pre : List Buf) (l : List Buf) (n : Nat) (hp : AllFull pre)
+    (hn : capSum pre ≤ n) :
+    defaultSetLen (pre ++ l) n =
+      match defaultSetLen l (n - capSum pre) with
+      | .ok l' => .ok (pre ++ l')
+      | .error f => .error f := by
+  induction pre generalizing n with
+  | nil => simp only [List.nil_append, capSum, Nat.sub_zero]; cases defaultSetLen l n <;> rfl
+  | cons m rest ih =>
+    obtain ⟨⟨o, c, hg⟩, hr⟩ := hp
+    have hu := hg.2.2.2.1
+    simp only [capSum, memberCap, hu] at hn ⊢
+    by_cases h0 : n = 0
+    · subst h0
+      have hc0 : c = 0 := by omega
+      have hcs : capSum rest = 0 := by omega
+      simp only [List.cons_append, defaultSetLen, if_true, Nat.zero_sub]
+      rw [defaultSetLen_zero]
+    · simp only [List.cons_append, defaultSetLen, h0, if_false, hu]
+      have hmin : min c n = c := by omega
+      rw [hmin, setLen_full hg]
+      simp only
+      rw [ih (n - c) hr (by omega)]
+      have : n - c - capSum rest = n - (c + capSum rest) := by omega
+      rw [this]
+      cases defaultSetLen l (n - (c + capSum rest)) <;> rfl
+
+/-- recording `off + |chunk|` on a member that was written `off` bytes into its writable region -/
+theorem setLen_write_at {m : Buf} {o li c : Nat} (h : GoodM m o li c) (off : Nat) (d : Bytes)
+    (hoffc : off ≤ c) (hd : li ≤ off + (d.take (c - off)).length) :
+    (m.write (o + off) (d.take (c - off))).setLen (off + (d.take (c - off)).length) = .ok (fillMemberAt m off d) := by
+  have hfit := h.fits
+  have hoff := h.off
+  obtain ⟨hw, hf, hi, hu, ht⟩ := h
+  have hk : (d.take (c - off)).length ≤ c - off := by simp only [List.length_take]; omega
+  simp only [Root.cap] at hfit
+  have hsp : (splice m.getRoot.mem (o + off) (d.take (c - off))).length = m.getRoot.mem.length :=
+    splice_length _ _ _ (by omega)
+  rw [Buf.setLen_eq]
+  simp only [Buf.getRoot_write, Buf.off_write, ← hoff]
+  have hwf2 : ({ m.getRoot with mem := splice m.getRoot.mem (o + off) (d.take (c - off)) } : Root).WF := by
+    constructor
+    · simp only [Root.cap, hsp]; exact hw.le
+    · intro hkind; simp only [Root.cap, hsp]; exact hw.full hkind
+  rw [Root.setLen_of_ge _ _ hwf2 (by simp only; omega) (by simp only [Root.cap, hsp]; omega)]
+  simp only [Buf.write, Buf.setRoot_setRoot, fillMemberAt, hu, fillRoot]
+  have : max m.getRoot.len (o + off + (d.take (c - off)).length) = o + (off + (d.take (c - off)).length) := by omega
+  rw [this]
+
+theorem write_at_eq_fillMemberAt {m : Buf} {o li c : Nat} (h : GoodM m o li c) (off : Nat) (d : Bytes)
+    (hd : off + (d.take (c - off)).length ≤ li) : m.write (o + off) (d.take (c - off)) = fillMemberAt m off d := by
+  obtain ⟨hw, hf, hi, hu, ht⟩ := h
+  simp only [fillMemberAt, hu, fillRoot, Buf.write]
+  have : max m.getRoot.len (o + off + (d.take (c - off)).length) = m.getRoot.len := by omega
+  rw [this]
+
+theorem dropEval_indexFrom (pre l : List Buf) (f : Buf → Res (Nat × Nat)) (k : Nat)
+    (hok : ∀ m ∈ pre, ∃ p, f m = .ok p) :
+    dropEval pre.length (indexFrom k ((pre ++ l).map f)) = indexFrom (k + pre.length) (l.map f) := by
+  induction pre generalizing k with
+  | nil => simp [dropEval]
+  | cons m rest ih =>
+    obtain ⟨p, hp⟩ := hok m (by simp)
+    simp only [List.cons_append, List.map_cons, indexFrom, List.length_cons, dropEval, hp]
+    rw [ih (k + 1) (fun x hx => hok x (by simp [hx]))]
+    congr 1
+    omega
+
+theorem GoodAll.asUninit_ok {ms : List Buf} (h : GoodAll ms) : ∀ m ∈ ms, ∃ p, m.asUninit = .ok p := by
+  induction ms with
+  | nil => intro m hm; cases hm
+  | cons a rest ih =>
+    obtain ⟨⟨o, li, c, hg⟩, hr⟩ := h
+    intro m hm
+    rcases List.mem_cons.mp hm with rfl | hm
+    · exact ⟨_, hg.2.2.2.1⟩
+    · exact ih hr m hm
+
+theorem GoodAll.asInit_ok {ms : List Buf} (h : GoodAll ms) : ∀ m ∈ ms, ∃ p, m.asInit = .ok p := by
+  induction ms with
+  | nil => intro m hm; cases hm
+  | cons a rest ih =>
+    obtain ⟨⟨o, li, c, hg⟩, hr⟩ := h
+    intro m hm
+    rcases List.mem_cons.mp hm with rfl | hm
+    · exact ⟨_, hg.2.2.1⟩
+    · exact ih hr m hm
+
+/-- **Fill law through a `VectoredSlice`**: the wrapped `default_set_len` container consists of full members
+`pre`, then a member `m` with the slice's `offset ≤ li` inside it, then `rest`, with either `m` full and `rest`
+packed or `rest` all empty (this is exactly what `slice_mut(begin)` with `begin = capSum pre + off ≤ total_len` gives
+on a packed buffer, see `skipCount_asUninit`). Writing `d` through the slice and recording it with
+`advance_vec_to(|d|)` stores the first chunk `off` bytes into `m`, the following chunks into `rest` from their start,
+records exactly those bytes (`set_len(begin + |d|)` on the wrapped buffer), and leaves `pre` untouched. -/
+theorem VBuf.fill_slice_packed (pre : List Buf) (m : Buf) (rest : List Buf) (o li c off : Nat) (d : Bytes)
+    (hpre : AllFull pre) (hm : GoodM m o li c) (hoff : off ≤ li)
+    (hshape : (li = c ∧ Packed rest) ∨ AllEmpty rest)
+    (hd : d.length ≤ (c - off) + capSum rest) :
+    (VBuf.vslice (.base .list (pre ++ m :: rest)) (capSum pre + off) pre.length off).fill d =
+      .ok (.vslice (.base .list (pre ++ fillMemberAt m off d :: fillMembers rest (d.drop (c - off))))
+        (capSum pre + off) pre.length off) := by
+  have hlc := hm.le
+  have hu := hm.2.2.2.1
+  have hi := hm.2.2.1
+  have hrestP : Packed rest := by
+    rcases hshape with h | h
+    · exact h.2
+    · exact h.packed
+  have hrg := hrestP.good
+  have hpg := hpre.good
+  -- the slice's iterators
+  have hitU : (VBuf.vslice (.base .list (pre ++ m :: rest)) (capSum pre + off) pre.length off).iterUninit =
+      (pre.length, .ok (o + off, c - off)) :: indexFrom (pre.length + 1) (rest.map Buf.asUninit) := by
+    simp only [VBuf.iterUninit]
+    rw [dropEval_indexFrom pre (m :: rest) Buf.asUninit 0 hpg.asUninit_ok]
+    simp only [List.map_cons, indexFrom, Nat.zero_add, applyOffset, hu]
+    rw [if_pos (by omega)]
+  have hitI : ∀ m' : Buf, m'.asInit = .ok (o, li) → ∀ rest' : List Buf,
+      (VBuf.vslice (.base .list (pre ++ m' :: rest')) (capSum pre + off) pre.length off).iterSlice =
+      (pre.length, .ok (o + off, li - off)) :: indexFrom (pre.length + 1) (rest'.map Buf.asInit) := by
+    intro m' hm' rest'
+    simp only [VBuf.iterSlice]
+    rw [dropEval_indexFrom pre (m' :: rest') Buf.asInit 0 hpg.asInit_ok]
+    simp only [List.map_cons, indexFrom, Nat.zero_add, applyOffset, hm']
+    rw [if_pos hoff]
+  unfold VBuf.fill
+  simp only [VBuf.totalCap, hitU, sumItems, sumItems_asUninit rest (pre.length + 1) hrg, hd, if_true]
+  -- the write phase
+  have hwrite : ∃ cs, distribute ((pre.length, Except.ok (o + off, c - off)) ::
+        indexFrom (pre.length + 1) (rest.map Buf.asUninit)) d = .ok cs ∧
+      applyWrites (pre ++ m :: rest) cs =
+        (if d.isEmpty then pre ++ m :: rest
+         else pre ++ m.write (o + off) (d.take (c - off)) :: writeMembers rest (d.drop (c - off))) := by
+    by_cases hde : d.isEmpty
+    · simp only [distribute, hde, if_true]
+      exact ⟨[], rfl, rfl⟩
+    · simp only [distribute, hde, Bool.false_eq_true, if_false]
+      obtain ⟨cs, h1, h2⟩ := distribute_applyWrites rest (pre ++ [m.write (o + off) (d.take (c - off))])
+        (d.drop (c - off)) hrg
+      simp only [List.length_append, List.length_cons, List.length_nil, Nat.zero_add] at h1
+      refine ⟨(pre.length, o + off, d.take (c - off)) :: cs, by simp [h1], ?_⟩
+      simp only [applyWrites, modifyAt_append]
+      have : pre ++ m.write (o + off) (d.take (c - off)) :: rest =
+          (pre ++ [m.write (o + off) (d.take (c - off))]) ++ rest := by simp
+      rw [this, h2]
+      simp
+  obtain ⟨cs, hcs, happly⟩ := hwrite
+  simp only [hcs, VBuf.members, happly, VBuf.setMembers]
+  by_cases hde : d.isEmpty
+  · -- nothing to write, nothing to record
+    have hnil : d = [] := by simpa using hde
+    subst hnil
+    simp only [List.isEmpty_nil, if_true, List.length_nil]
+    unfold VBuf.advanceVecTo
+    simp only [VBuf.totalLen, hitI m hi rest, sumItems, sumItems_asInit rest (pre.length + 1) hrg]
+    simp only [Nat.not_lt_zero, gt_iff_lt, if_false, List.drop_nil]
+    rw [fillMembers_nil hrg]
+    have : fillMemberAt m off [] = m := by
+      simp only [fillMemberAt, hu, List.take_nil, fillRoot, splice_nil, List.length_nil, Nat.add_zero]
+      have h1 : max m.getRoot.len (o + off) = m.getRoot.len := by have := hm.2.2.2.2; omega
+      rw [h1]
+      exact Buf.setRoot_eta m
+    rw [this]
+  · simp only [hde, Bool.false_eq_true, if_false]
+    have hne : d ≠ [] := by simpa using hde
+    have hdpos : d.length ≠ 0 := fun h0 => hne (List.length_eq_zero_iff.mp h0)
+    unfold VBuf.advanceVecTo
+    have hiw : (m.write (o + off) (d.take (c - off))).asInit = .ok (o, li) := by
+      rw [Buf.asInit_write]; exact hi
+    simp only [VBuf.totalLen, hitI _ hiw, sumItems, writeMembers_asInit,
+      sumItems_asInit rest (pre.length + 1) hrg]
+    have hchunk : (d.take (c - off)).length = min (c - off) d.length := by simp only [List.length_take]
+    have hdrop : (d.drop (c - off)).length = d.length - (c - off) := by simp only [List.length_drop]
+    by_cases hgt : d.length > li - off + lenSum rest
+    · -- recorded: set_len(begin + |d|) on the wrapped container
+      simp only [hgt, if_true, VBuf.setLen]
+      rw [defaultSetLen_full_prefix pre _ _ hpre (by omega)]
+      have hrem : capSum pre + off + d.length - capSum pre = off + d.length := by omega
+      rw [hrem]
+      have huw : (m.write (o + off) (d.take (c - off))).asUninit = .ok (o, c) := by
+        have hfit := hm.fits
+        rw [Buf.asUninit_write _ _ _ (by rw [hchunk]; omega)]
+        exact hu
+      simp only [defaultSetLen, show off + d.length ≠ 0 by omega, if_false, huw]
+      have hmin : min c (off + d.length) = off + (d.take (c - off)).length := by rw [hchunk]; omega
+      have hli : li ≤ off + (d.take (c - off)).length := by
+        rw [hchunk]
+        rcases hshape with h | h
+        · omega
+        · have := h.lenSum; omega
+      rw [hmin, setLen_write_at hm off d (by omega) hli]
+      simp only
+      have hrem2 : off + d.length - (off + (d.take (c - off)).length) = (d.drop (c - off)).length := by
+        rw [hchunk, hdrop]; omega
+      rw [hrem2, defaultSetLen_writeMembers rest (d.drop (c - off)) hrestP (by
+          rcases hshape with h | h
+          · by_cases h0 : (d.drop (c - off)).length = 0
+            · right; exact List.length_eq_zero_iff.mp h0
+            · left; rw [hdrop] at h0 ⊢; omega
+          · rw [h.lenSum]
+            by_cases h0 : (d.drop (c - off)).length = 0
+            · right; exact List.length_eq_zero_iff.mp h0
+            · left; omega) (by rw [hdrop]; omega)]
+    · -- the data ends inside the initialised part: the writes are the whole effect
+      simp only [hgt, if_false]
+      have hle : d.length ≤ li - off + lenSum rest := by omega
+      rw [write_at_eq_fillMemberAt hm off d (by
+        rw [hchunk]
+        rcases hshape with h | h
+        · omega
+        · have := h.lenSum; omega)]
+      rw [writeMembers_eq_fillMembers rest (d.drop (c - off)) hrestP (by
+        rw [hdrop]
+        rcases hshape with h | h
+        · omega
+        · have := h.lenSum; omega)]
+
 /-! ### `VectoredBufIter`: the first position -/
 
 theorem defaultSetLen_zero (l : List Buf) : defaultSetLen l 0 = .ok l := by
